@@ -3,6 +3,8 @@ import Py4hwV.Proofs.C12FP
 import Py4hwV.Proofs.C12Ieee
 import Py4hwV.Proofs.C12Enc
 import Py4hwV.Proofs.C12Conv
+import Py4hwV.Proofs.C12Narrow
+import Py4hwV.Proofs.C12Float
 /-
   C12 — Number-format helpers are bit-exact and arithmetically exact.
 
@@ -180,6 +182,11 @@ theorem fx_iw0_works :
 -- non-vacuity: Q3.4 with sign: 1.5 · (−0.5) = −0.75 ; 7.9375 + 0.0625 wraps to −8
 example : FixedPoint.mult ⟨1, 3, 4⟩ 0x18 0xF8 = some 0xF4 := by decide
 example : FixedPoint.add ⟨1, 3, 4⟩ 0x7F 0x01 = some 0x80 := by decide
+-- frac_bits = 0 (a plain signed 8-bit integer: 100 + 100 wraps to 200 = −56; (−3)·5 = −15 = 0xF1), int_bits = 0 without sign (Q0.4:
+-- 0.75 · 0.25 read SIGNED = (−0.25)·0.25 = −0.0625 = 0xF), and the two degenerate one-bit formats
+example : FixedPoint.add ⟨1, 7, 0⟩ 100 100 = some 200 ∧ FixedPoint.mult ⟨1, 7, 0⟩ 0xFD 5 = some 0xF1 := by decide
+example : FixedPoint.mult ⟨0, 0, 4⟩ 0xC 0x4 = some 0xF ∧ FixedPoint.sub ⟨0, 0, 4⟩ 0x1 0x2 = some 0xF := by decide
+example : FixedPoint.mult ⟨1, 0, 0⟩ 1 1 = some 1 ∧ FixedPoint.add ⟨0, 1, 0⟩ 1 1 = some 0 ∧ FixedPoint.mult ⟨0, 0, 1⟩ 1 1 = some 0 := by decide
 example : (c2Signed 8 0x18 * c2Signed 8 0xF8) / (2:Int)^4 % (2:Int)^8 = 0xF4 := by decide
 
 /-! ### (3) FPNum: an FPNum denotes the rational  s · m / p · 2^e  (`FPNum.value`, Helper/Spec.lean) -/
@@ -888,5 +895,225 @@ theorem fpnum_widen_sp_dp (b : Nat) (hnan : IEEE.isNaN IEEE.single b = false) :
       rfl
 
 example : (FPNum.from_ieee754 .hp 0x0001).bind (fun x => x.convert .sp) = some 0x33800000 := by decide   -- 2^-24
+
+
+/-! ### (5) narrowing conversions, `FPNum(float)`, and "every representable value gets the platform's encoding"
+
+   Proofs/C12Narrow.lean: for EVERY normalised FPNum (the class invariant: what the constructors and add/sub/mul return) and EVERY
+   target format, `convert` = sign bit + `truncFields` (`convertParts_norm`, `convertFinite_norm`; the two standardisation loops
+   are `⌊m·2^c / 2^a⌋`, `stdPrec_trunc`).  `truncFields_rounds_toward_zero`: the rounding mode is truncation of the magnitude
+   (`denoted ≤ |x| < denoted + ulp`), subnormal/zero below the smallest normal, infinity from `2^(emax+1)` on.
+   `truncFields_of_representable` / `convert_repr_core`: a value representable in the target is converted exactly.
+   Proofs/C12Float.lean: `FPNum(v)` for a Python float (`adjust_sem` + `adjust_semp`) terminates, is normalised and denotes `v`. -/
+
+/-- **every value representable in a format is converted to the platform's encoding of it**: a normalised FPNum `x` (however it was
+    produced: from an encoding of any format, from a float, by exact arithmetic) whose sign and value are those of the finite pattern
+    `b` of `fmt` satisfies `x.convert(fmt) = b` — signed zeros, subnormals, normals up to the largest finite number -/
+theorem fpnum_convert_representable (fmt : Fmt) (x : FPNum) (b : Nat) (hx : Normalised x)
+    (hb : b < 2 ^ fmt.ieee.width) (hfin : IEEE.expOf fmt.ieee b ≠ 2 ^ fmt.ieee.ebits - 1)
+    (hs : x.s = if IEEE.signOf fmt.ieee b = 0 then 1 else -1)
+    (hv : x.value = (IEEE.decode fmt.ieee b).toRat) : x.convert fmt = some (b : Int) := by
+  cases fmt
+  · have hc := convert_repr_core IEEE.half 0x1F IEEE754_HP_NAN_MANTISA IEEE754_HP_INF_MANTISA x b hx (by decide) (by decide) hfin hs hv
+    have hbias : IEEE.half.bias = 15 := by decide
+    rw [hbias] at hc
+    simp only [FPNum.convert, fmtConsts, shl_one]
+    simp only [IEEE.half] at hc
+    rw [hc]
+    simp only [Option.map, pack, gen_pack_hp_eq]
+    congr 1
+    simp only [Fmt.ieee, IEEE.half, IEEE.Format.width] at hb
+    unfold IEEE.signOf IEEE.expOf IEEE.manOf
+    simp only
+    omega
+  · have hc := convert_repr_core IEEE.single 0xFF IEEE754_SP_NAN_MANTISA IEEE754_SP_INF_MANTISA x b hx (by decide) (by decide) hfin hs hv
+    have hbias : IEEE.single.bias = 127 := by decide
+    rw [hbias] at hc
+    simp only [FPNum.convert, fmtConsts, shl_one]
+    simp only [IEEE.single] at hc
+    rw [hc]
+    simp only [Option.map, pack, gen_pack_sp_eq]
+    congr 1
+    simp only [Fmt.ieee, IEEE.single, IEEE.Format.width] at hb
+    unfold IEEE.signOf IEEE.expOf IEEE.manOf
+    simp only
+    omega
+  · have hc := convert_repr_core IEEE.double 0x7FF IEEE754_DP_NAN_MANTISA IEEE754_DP_INF_MANTISA x b hx (by decide) (by decide) hfin hs hv
+    have hbias : IEEE.double.bias = 1023 := by decide
+    rw [hbias] at hc
+    simp only [FPNum.convert, fmtConsts, shl_one]
+    simp only [IEEE.double] at hc
+    rw [hc]
+    simp only [Option.map, pack, gen_pack_dp_eq]
+    congr 1
+    simp only [Fmt.ieee, IEEE.double, IEEE.Format.width] at hb
+    unfold IEEE.signOf IEEE.expOf IEEE.manOf
+    simp only
+    omega
+
+
+theorem decode_finite_form (f : IEEE.Format) (b : Nat) (hfin : IEEE.expOf f b ≠ 2 ^ f.ebits - 1) :
+    ∃ N k : Int, 0 ≤ N ∧ IEEE.decode f b = .fin (IEEE.signOf f b == 1) ⟨N, k⟩ := by
+  unfold IEEE.decode
+  have c1 : (IEEE.expOf f b == 2 ^ f.ebits - 1) = false := by simp [hfin]
+  simp only [c1, Bool.false_eq_true, if_false]
+  split
+  · split
+    · exact ⟨0, 0, by omega, rfl⟩
+    · exact ⟨_, _, by omega, rfl⟩
+  · exact ⟨_, _, by have := two_pow_pos_int f.mbits; omega, rfl⟩
+
+/-- `FPNum(±inf).convert(fmt)` is the infinity of that sign -/
+theorem fpnum_float_inf (fmt : Fmt) (neg : Bool) :
+    (FPNum.convert_float_to_semp (.inf neg)).bind (fun x => x.convert fmt) =
+      some (((if neg then 1 else 0) * 2 ^ (fmt.ieee.ebits + fmt.ieee.mbits) + (2 ^ fmt.ieee.ebits - 1) * 2 ^ fmt.ieee.mbits : Nat) : Int) := by
+  cases fmt <;> cases neg <;> decide
+
+/-- **`FPNum(v).convert(fmt)` is the platform's encoding of `v`, for every `v` representable in `fmt`**: for every non-NaN pattern
+    `b` of half / single / double precision, constructing an FPNum from the Python float that `b` denotes (`IEEE.decode`, the
+    value `struct.unpack` returns) and converting it to that format gives back `b` — both zeros, every subnormal, the smallest
+    normal, the largest finite number, both infinities -/
+theorem fpnum_float_convert (fmt : Fmt) (b : Nat) (hb : b < 2 ^ fmt.ieee.width) (hnan : IEEE.isNaN fmt.ieee b = false) :
+    (FPNum.convert_float_to_semp (IEEE.decode fmt.ieee b)).bind (fun x => x.convert fmt) = some (b : Int) := by
+  by_cases hfin : IEEE.expOf fmt.ieee b = 2 ^ fmt.ieee.ebits - 1
+  · have hm := isNaN_false fmt.ieee b hnan hfin
+    have hd : IEEE.decode fmt.ieee b = .inf (IEEE.signOf fmt.ieee b == 1) := by
+      unfold IEEE.decode; simp [hfin, hm]
+    rw [hd, fpnum_float_inf]
+    congr 2
+    have hs2 : IEEE.signOf fmt.ieee b < 2 := by unfold IEEE.signOf; omega
+    have hsb : (if (IEEE.signOf fmt.ieee b == 1) = true then 1 else 0) = IEEE.signOf fmt.ieee b := by
+      rcases (show IEEE.signOf fmt.ieee b = 0 ∨ IEEE.signOf fmt.ieee b = 1 by omega) with c | c <;> simp [c]
+    rw [hsb]
+    revert hfin hm hb
+    unfold IEEE.signOf IEEE.expOf IEEE.manOf IEEE.Format.width
+    cases fmt <;> simp only [Fmt.ieee, IEEE.half, IEEE.single, IEEE.double] <;> omega
+  · obtain ⟨N, k, hN, hd⟩ := decode_finite_form fmt.ieee b hfin
+    obtain ⟨y, hy, hnorm, hys, hyv⟩ := float_to_semp_spec (IEEE.signOf fmt.ieee b == 1) N k hN
+    rw [hd, hy]
+    simp only [Option.bind]
+    apply fpnum_convert_representable fmt y b hnorm hb hfin
+    · rw [hys]
+      have hs2 : IEEE.signOf fmt.ieee b < 2 := by unfold IEEE.signOf; omega
+      rcases (show IEEE.signOf fmt.ieee b = 0 ∨ IEEE.signOf fmt.ieee b = 1 by omega) with c | c <;> simp [c]
+    · rw [hyv, hd]
+
+-- non-vacuity: largest half subnormal, smallest half normal, largest finite half, −0.0 and the smallest double subnormal
+example : (FPNum.convert_float_to_semp (IEEE.decode IEEE.half 0x03FF)).bind (fun x => x.convert .hp) = some 0x03FF := by decide
+example : (FPNum.convert_float_to_semp (IEEE.decode IEEE.half 0x0400)).bind (fun x => x.convert .hp) = some 0x0400 := by decide
+example : (FPNum.convert_float_to_semp (IEEE.decode IEEE.half 0x7BFF)).bind (fun x => x.convert .hp) = some 0x7BFF := by decide
+example : (FPNum.convert_float_to_semp (.fin true ⟨0, 0⟩)).bind (fun x => x.convert .sp) = some 0x80000000 := by decide
+example : IEEE.isNaN Fmt.dp.ieee 1 = false ∧ 1 < 2 ^ Fmt.dp.ieee.width := by decide
+
+
+/-! #### conversions between formats: exact whenever the value is representable in the target (narrowing included) -/
+
+theorem from_parts_normalised (e_max e_sub e_bias : Int) (mb : Nat) (S E M : Nat) (hS : S < 2) (hne : (E : Int) ≠ e_max)
+    (x : FPNum) (hx : from_parts (S : Int) (E : Int) (M : Int) e_max e_sub e_bias mb = some x) :
+    Normalised x ∧ x.s = (if S = 0 then 1 else -1) := by
+  have hmbpos := two_pow_pos_int mb
+  have hsg2 : (if ((S : Int) == 0) = true then (1:Int) else -1) = 1 ∨ (if ((S : Int) == 0) = true then (1:Int) else -1) = -1 := by
+    rcases (show S = 0 ∨ S = 1 by omega) with rfl | rfl <;> simp
+  have hsg : (if ((S : Int) == 0) = true then (1:Int) else -1) = (if S = 0 then 1 else -1) := by
+    rcases (show S = 0 ∨ S = 1 by omega) with rfl | rfl <;> simp
+  unfold from_parts at hx
+  have : ((E : Int) == e_max) = false := by simp [hne]
+  simp only [this, Bool.false_eq_true, if_false, shl_one] at hx
+  rw [set_semp_finite _ _ _ _ hmbpos] at hx
+  have hm : (0:Int) ≤ (if ((E : Int) == 0) = true then (e_sub, (M : Int)) else ((E : Int) - e_bias, Py.lor ((2:Int)^mb) (M : Int))).2 := by
+    split
+    · show (0:Int) ≤ (M : Int); omega
+    · show (0:Int) ≤ Py.lor ((2:Int)^mb) (M : Int)
+      have e2 : ((2:Int)^mb) = ((2^mb : Nat) : Int) := by simp
+      rw [e2, lor_ofNat]; omega
+  have post := adjust_semp_spec _ x (by exact hmbpos) (by exact hm) hx
+  exact ⟨normalised_of_adj hsg2 ⟨mb, rfl⟩ post rfl rfl, by rw [post.s]; exact hsg⟩
+
+/-- `FPNum(b, fmt)` for a finite pattern: a normalised FPNum with the pattern's sign, denoting the pattern's value (all formats) -/
+theorem from_ieee754_normalised (fmt : Fmt) (b : Nat) (hfin : IEEE.expOf fmt.ieee b ≠ 2 ^ fmt.ieee.ebits - 1) :
+    ∃ x, FPNum.from_ieee754 fmt (b : Int) = some x ∧ Normalised x ∧
+      x.s = (if IEEE.signOf fmt.ieee b = 0 then 1 else -1) ∧ x.value = (IEEE.decode fmt.ieee b).toRat := by
+  cases fmt
+  · obtain ⟨x, hx, -, hv⟩ := fpnum_from_hp_value b hfin
+    have hx0 := hx
+    unfold IEEE.expOf at hfin
+    simp only [Fmt.ieee, IEEE.half] at hfin
+    unfold FPNum.from_ieee754 FPNum.from_ieee754_hp unpack_ieee754_hp_parts at hx
+    simp only [shr_nat, shl_one, show ((0x1F:Int)) = (2:Int)^5 - 1 by decide, land_mask_nat, land_one_nat] at hx
+    rw [show ((2:Int)^5 - 1) = (0x1F : Int) by decide] at hx
+    obtain ⟨hn, hs⟩ := from_parts_normalised 0x1F (-14) 15 10 (b / 2^15 % 2) (b / 2^10 % 2^5) (b % 2^10) (by omega) (by omega) x hx
+    exact ⟨x, hx0, hn, hs, hv⟩
+  · obtain ⟨x, hx, -, hv⟩ := fpnum_from_sp_value b hfin
+    have hx0 := hx
+    unfold IEEE.expOf at hfin
+    simp only [Fmt.ieee, IEEE.single] at hfin
+    unfold FPNum.from_ieee754 FPNum.from_ieee754_sp unpack_ieee754_sp_parts at hx
+    simp only [shr_nat, shl_one, show ((0xFF:Int)) = (2:Int)^8 - 1 by decide, land_mask_nat, land_one_nat] at hx
+    rw [show ((2:Int)^8 - 1) = (0xFF : Int) by decide] at hx
+    obtain ⟨hn, hs⟩ := from_parts_normalised 0xFF (-126) 127 23 (b / 2^31 % 2) (b / 2^23 % 2^8) (b % 2^23) (by omega) (by omega) x hx
+    exact ⟨x, hx0, hn, hs, hv⟩
+  · obtain ⟨x, hx, -, hv⟩ := fpnum_from_dp_value b hfin
+    have hx0 := hx
+    unfold IEEE.expOf at hfin
+    simp only [Fmt.ieee, IEEE.double] at hfin
+    unfold FPNum.from_ieee754 FPNum.from_ieee754_dp unpack_ieee754_dp_parts at hx
+    simp only [shr_nat, shl_one, show ((0x7FF:Int)) = (2:Int)^11 - 1 by decide, land_mask_nat, land_one_nat] at hx
+    rw [show ((2:Int)^11 - 1) = (0x7FF : Int) by decide] at hx
+    obtain ⟨hn, hs⟩ := from_parts_normalised 0x7FF (-1022) 1023 52 (b / 2^63 % 2) (b / 2^52 % 2^11) (b % 2^52) (by omega) (by omega) x hx
+    exact ⟨x, hx0, hn, hs, hv⟩
+
+/-- **conversion between ANY two formats (narrowing dp → sp, dp → hp, sp → hp included) is exact on every value representable in the
+    target**: if the finite source pattern `b` and the finite target pattern `b2` have the same sign bit and denote the same
+    rational, then `FPNum(b, src).convert(dst) = b2` -/
+theorem fpnum_convert_between (src dst : Fmt) (b b2 : Nat)
+    (hfin : IEEE.expOf src.ieee b ≠ 2 ^ src.ieee.ebits - 1)
+    (hb2 : b2 < 2 ^ dst.ieee.width) (hfin2 : IEEE.expOf dst.ieee b2 ≠ 2 ^ dst.ieee.ebits - 1)
+    (hsign : IEEE.signOf dst.ieee b2 = IEEE.signOf src.ieee b)
+    (hval : (IEEE.decode dst.ieee b2).toRat = (IEEE.decode src.ieee b).toRat) :
+    (FPNum.from_ieee754 src (b : Int)).bind (fun x => x.convert dst) = some (b2 : Int) := by
+  obtain ⟨x, hx, hn, hs, hv⟩ := from_ieee754_normalised src b hfin
+  rw [hx]
+  simp only [Option.bind]
+  exact fpnum_convert_representable dst x b2 hn hb2 hfin2 (by rw [hs, hsign]) (by rw [hv, hval])
+
+-- non-vacuity (narrowing): the double 2^-24 is the smallest half subnormal; 65504.0 as a single is the largest finite half
+example : (FPNum.from_ieee754 .dp 0x3E70000000000000).bind (fun x => x.convert .hp) = some 0x0001 := by decide
+example : (FPNum.from_ieee754 .sp 0x477FE000).bind (fun x => x.convert .hp) = some 0x7BFF := by decide
+
+/-- **the rounding mode of every conversion** (`convert` up to the final `pack`, any format given by `bias`, `emask > 0`, `mb`), for
+    every normalised non-zero FPNum `x`, magnitude `|x| = m/p · 2^e`:
+    * `e + bias ≥ emask` (i.e. `|x| ≥ 2^(emask − bias)`): the fields of INFINITY (overflow is not saturated to the largest finite number);
+    * otherwise a finite encoding `(E, M)`, `0 ≤ E < emask`, `0 ≤ M < 2^mb`, subnormal (`E = 0`) exactly when `|x|` is below the smallest
+      normal, whose magnitude is `|x|` ROUNDED TOWARD ZERO:  `denoted ≤ |x| < denoted + ulp(E)`.
+    The sign bit is `0` for `x.s > 0`, else `1`.  (`struct.pack('<f', v)` rounds to nearest-even instead: the two agree exactly on the
+    values representable in the target — `fpnum_convert_representable`.) -/
+theorem fpnum_convert_rounds_toward_zero (bias emask : Int) (mb : Nat) (nanM infM : Int) (x : FPNum)
+    (hx : Normalised x) (hm : x.m ≠ 0) (hmask : 0 < emask) :
+    ∃ E M : Int, convertParts x bias emask ((2:Int)^mb) nanM infM = some (if x.s > 0 then 0 else 1, E, M) ∧
+      (x.e + bias ≥ emask → E = emask ∧ M = 0) ∧
+      (x.e + bias < emask → 0 ≤ E ∧ E < emask ∧ 0 ≤ M ∧ M < (2:Int)^mb ∧ (E = 0 ↔ x.e + bias < 1) ∧
+        Dy.toRat (IEEE.fieldsDy bias mb E M) ≤ val4 1 x.e x.m x.p ∧
+        val4 1 x.e x.m x.p < Dy.toRat (IEEE.fieldsDy bias mb E M) + (2:Rat)^(ulpExp bias mb E)) := by
+  obtain ⟨a, ha⟩ := hx.pow2
+  have hn : x.p ≤ x.m ∧ x.m < 2 * x.p := by
+    rcases hx.normal with h | h
+    · exact absurd h hm
+    · exact h
+  rw [ha] at hn
+  refine ⟨(truncFields bias emask mb a x.e x.m).1, (truncFields bias emask mb a x.e x.m).2, ?_, ?_, ?_⟩
+  · rw [convertParts_norm bias emask mb a nanM infM x hx.fin ha hx.normal hmask]
+    simp [hm]
+  · intro h; unfold truncFields; simp [h]
+  · intro h
+    rw [ha]
+    exact truncFields_rounds_toward_zero bias emask mb a x.e x.m hn.1 (by rw [two_pow_succ_int]; exact hn.2) hmask h
+
+-- non-vacuity: 1 + 2^-11 (halfway between two halfs) → half 1.0 (truncated, nearest-even gives the same); 1 + 3·2^-11 → 0x3C01
+-- (nearest-even would give 0x3C02); 65520 = 2^16 − 2^4 (≥ max half, < 2^16) → 0x7BFF, not infinity; 2^16 → infinity; 2^-25 → +0
+example : (FPNum.from_ieee754 .sp 0x3F801000).bind (fun x => x.convert .hp) = some 0x3C00 := by decide
+example : (FPNum.from_ieee754 .sp 0x3F803000).bind (fun x => x.convert .hp) = some 0x3C01 := by decide
+example : (FPNum.from_ieee754 .sp 0x477FF000).bind (fun x => x.convert .hp) = some 0x7BFF := by decide
+example : (FPNum.from_ieee754 .sp 0x47800000).bind (fun x => x.convert .hp) = some 0x7C00 := by decide
+example : (FPNum.from_ieee754 .sp 0xB3000000).bind (fun x => x.convert .hp) = some 0x8000 := by decide
 
 end C12
